@@ -5,6 +5,7 @@ from framegen import *
 from vlib import Scenario
 
 OWN = mac(0x02AA00000001)
+BR_MAC = mac(0x02DD000000D4)
 
 
 def key_mac(k):
@@ -149,9 +150,17 @@ def sc_c11(name, seed, counts, tier):
     lines.append("TCLEAR")
     lines.append("TADD 1 7 9")
     for op in range(256):
-        rd = rng.choice([BCAST, OWN])
-        f = header(rng.choice([0, 1, 2]), op, rd, m, rd, m, 9) + struct.pack(">HH", 7, 1) + OWN
+        # Ethernet and real destination chosen independently (relayed frames: they differ)
+        ed, rd = rng.choice([BCAST, OWN]), rng.choice([BCAST, OWN])
+        f = header(rng.choice([0, 1, 2]), op, ed, m, rd, m, 9) + struct.pack(">HH", 7, 1) + OWN
         lines.append("CLASSIFY %d 0 %s" % (len(f), f.hex()))
+    for ed in (BCAST, OWN, key_mac(9)):
+        for rd in (BCAST, OWN, key_mac(9), bytes([0xFF] * 5 + [0xFE])):
+            for tos in (0, 1):
+                f = header(tos, OP_RESET, ed, rng.choice([m, BR_MAC]), rd, m, 0)
+                lines.append("CLASSIFY %d 0 %s" % (len(f), f.hex()))
+                f = header(tos, OP_HELLO, ed, m, rd, m, 0) + bytes(14)
+                lines.append("CLASSIFY %d 0 %s" % (len(f), f.hex()))
     for ln in (0, 14, 31, 32, 33, 34, 35, 36, 37, 41, 42, 47, 48):
         f = discover(0, m, gen=7, seq=9, stations=[OWN, key_mac(9)])
         for fill in (0, 0xFF, 1):      # what the rest of the receive buffer happens to hold
